@@ -8,10 +8,10 @@ Module C20.
 
 (* the kernel interactions of one invocation, from the layers on disk (cf. Layers.mount_layer,
    mount_one, unmount_layer): getLayers reads the table; per layer of the chain the overlay is
-   mounted unless the cached table shows it, every import likewise followed by a re-read, and
-   the table is re-read at the end of the layer *)
+   mounted unless the cached table shows it, every import likewise, each mount followed by a
+   re-read, and the table is re-read at the end of the layer *)
 Definition layer_code (c : cfgT) (ch : list layer) (x : layer) : list instr :=
-  flat_map (fun em => [IMountIf (em_target em) (negb (em_overlay em))]) (expected_mounts c ch x) ++ [IProbe].
+  flat_map (fun em => [IMountIf (em_target em) true]) (expected_mounts c ch x) ++ [IProbe].
 Definition code_of (c : cfgT) (f : fsT) (cmd : command) : list instr :=
   match cmd with
   | CMount n => let ch := chain c f n in
